@@ -152,6 +152,9 @@ class Run:
                 self.viol.append(Violation(prop="C03", oracle=oracle, op=op.idx, what=what, region=region, addr=int(addrs[i]),
                                            found_tag=int(t[i]), n_bytes=int(bad.sum())))
 
+    def _ident(self, op, what, region, addrs, t):
+        """hook: tensor-identity check (T1), see runtime.NpuRun"""
+
     def _observe(self, op, what, region, addrs, check=True):
         """Tags observed by a read (after the C02 / C03 in-run invariants), or None when out of extent."""
         r = resolve(self.mem, region, addrs, 1, self.viol, op, what, False)
@@ -163,6 +166,7 @@ class Run:
             self.was_read.setdefault(space, np.ones(len(self.mem.tags[space]), bool))[pa] = True
         if check:
             self._check_tags(op, what, region, addrs if mask is None else addrs[mask], t)
+        self._ident(op, what, region, addrs if mask is None else addrs[mask], t)
         if mask is not None:
             full = np.full(len(addrs), POISON, dtype=np.int64)  # bytes outside the extent: undefined content
             full[mask] = t
